@@ -2,6 +2,7 @@
 package c10
 
 import (
+	"github.com/DemoHn/Zn/pkg/common"
 	"github.com/DemoHn/Zn/pkg/exec"
 	r "github.com/DemoHn/Zn/pkg/runtime"
 	"github.com/DemoHn/Zn/pkg/value"
@@ -263,6 +264,101 @@ func H_Programs() {
 	res, err, p := run(src, r.ElementMap{"A": a, "I": i})
 	zv.Assert(p == nil, "program: no Go panic: "+src)
 	zv.Assert(err != nil || res != nil, "program: a value or an error: "+src)
+	zv.Reach("done")
+}
+
+// H_NoSelfContainment: a list / dictionary stored into itself is stored as a
+// copy: no value ever contains itself (displaying, copying or comparing such a
+// value would recurse until the host's stack overflows - a fatal error no
+// recover() can catch).
+func H_NoSelfContainment() {
+	x := zv.Float64("x")
+	var p interface{}
+	switch zv.Choose(5) {
+	case 0, 1, 2:
+		arr := value.NewArray([]r.Element{value.NewNumber(x)})
+		name := []string{"后增", "前增", "新增"}[zv.Choose(3)]
+		args := []r.Element{arr}
+		if name == "新增" {
+			args = []r.Element{arr, value.NewNumber(1)}
+		}
+		func() {
+			defer func() { p = recover() }()
+			arr.ExecMethod(name, args)
+		}()
+		zv.Assert(p == nil, "self insertion: no panic")
+		for _, e := range arr.GetValue() {
+			zv.Assert(e != r.Element(arr), "a list stored into itself ("+name+") is stored as a copy")
+		}
+	case 3:
+		hm := value.NewHashMap([]value.KVPair{{Key: "甲", Value: value.NewNumber(x)}})
+		func() {
+			defer func() { p = recover() }()
+			hm.ExecMethod("写入", []r.Element{value.NewString("自"), hm})
+		}()
+		zv.Assert(p == nil, "self insertion: no panic")
+		for _, e := range hm.GetValue() {
+			zv.Assert(e != r.Element(hm), "a dictionary stored into itself (写入) is stored as a copy")
+		}
+	default:
+		outer := value.NewArray([]r.Element{})
+		inner := value.NewHashMap([]value.KVPair{{Key: "甲", Value: outer}})
+		func() {
+			defer func() { p = recover() }()
+			outer.ExecMethod("后增", []r.Element{inner})
+		}()
+		zv.Assert(p == nil, "indirect self insertion: no panic")
+		in2, ok := outer.GetValue()[0].(*value.HashMap)
+		zv.Assert(ok && in2.GetValue()["甲"] != r.Element(outer), "a list stored into a dictionary it holds is stored as a copy (no cycle through two values)")
+	}
+	zv.Reach("done")
+}
+
+// netLib: the library types of pkg/common, registered as stdlib/http does.
+func netLib() *r.Library {
+	lib := r.NewLibrary("@网络")
+	lib.RegisterClass("HTTP请求", common.CLASS_HttpRequest)
+	lib.RegisterClass("HTTP响应", common.CLASS_HttpResponse)
+	return lib
+}
+
+// H_LibraryTypes: constructors of the library types with 0..3 arguments of every kind.
+func H_LibraryTypes() {
+	cls := []string{"HTTP请求", "HTTP响应"}[zv.Choose(2)]
+	n := zv.Choose(4)
+	names := []string{"A", "I", "J"}
+	call := "（新建" + cls + "）"
+	if n > 0 {
+		call = "（新建" + cls + "：" + names[0]
+		for k := 1; k < n; k++ {
+			call += "、" + names[k]
+		}
+		call += "）"
+	}
+	small := func(name string) r.Element {
+		switch zv.Choose(4) {
+		case 0:
+			return value.NewNumber(zv.Float64(name))
+		case 1:
+			return value.NewString(textPool())
+		case 2:
+			return value.NewHashMap([]value.KVPair{{Key: "甲", Value: value.NewNumber(1)}})
+		}
+		return value.NewNull()
+	}
+	in := r.ElementMap{"A": value.NewNull(), "I": value.NewNull(), "J": value.NewNull()}
+	for k := 0; k < n; k++ {
+		in[names[k]] = small(names[k])
+	}
+	var res r.Element
+	var err error
+	var p interface{}
+	func() {
+		defer func() { p = recover() }()
+		res, err = exec.NewInterpreter("verif").SetExternalLibs([]*r.Library{netLib()}).LoadScript([]rune("导入《@网络》\n输入A、I、J\n令O = " + call + "\n输出 1")).Execute(in)
+	}()
+	zv.Assert(p == nil, "library type: no Go panic: "+call)
+	zv.Assert(err != nil || res != nil, "library type: a value or an error: "+call)
 	zv.Reach("done")
 }
 
